@@ -166,6 +166,13 @@ func x2Configs(prop, tier string) []*X2Config {
 			"ql":           func(c *PipeCfg) { c.QL = 1 },
 			"allow":        func(c *PipeCfg) { c.Allow = map[string]bool{"a": true} },
 		}
+		noenv := base
+		noenv.Env = nil
+		noenv.TaskEnv = nil
+		withenv := noenv
+		withenv.Env = map[string]string{"E": "added"}
+		withenv.TaskEnv = map[string]map[string]string{"a": {"T": "added"}}
+		res = append(res, &X2Config{Name: "C16/env-added-to-a-definition-without-env", Cfgs: []PipeCfg{noenv, withenv}, Depth: depth(7, 8), Reload: true, Symmetry: true, AdvSteps: adv, Drain: true, Props: props("C16", "C02")})
 		names := []string{"task-added", "task-removed", "rewired", "script", "pipe-env", "task-env", "delay-added", "conc", "ql", "allow"}
 		for _, n := range names {
 			v := base
@@ -182,6 +189,18 @@ func x2Configs(prop, tier string) []*X2Config {
 	}
 	if prop == "C12" {
 		res = c12Configs(tier)
+	}
+	if prop == "C15" {
+		// "every accepted job is reported ... until retention removes it": saves with retention configured
+		for _, c := range c12Configs(tier) {
+			if c.Initial != nil {
+				continue
+			}
+			c.Name = "C15/" + c.Name
+			c.Props = props("C15ret")
+			c.LogDir = false
+			res = append(res, c)
+		}
 	}
 	if prop == "C10" {
 		for _, conc := range []int{1, 2} {
